@@ -93,6 +93,9 @@ class QTensorLinear(torch.autograd.Function):
     @staticmethod
     def forward(ctx, input, other, bias):
         ctx.save_for_backward(input, other)
+        if isinstance(other, QBytesTensor) and other.axis == -1:
+            # The scales of weights quantized along the input features cannot be factored out of the matrix multiplication
+            other = other.dequantize()
         if isinstance(other, AWQBitsTensor):
             if type(input) != torch.Tensor:
                 input = input.dequantize()
